@@ -415,6 +415,7 @@ func check(prop, tier string) int {
 	dir, cleanup := scratch()
 	defer cleanup()
 	os.MkdirAll(filepath.Join(dir, "logs"), 0o755)
+	loadSiteFuncs(dir)
 	buildS := time.Since(start).Seconds()
 
 	total, wall := spec.quick, spec.capQ
@@ -845,6 +846,7 @@ func writeEvidence(prop, tier string, seed uint64, sums []map[string]any, start 
 		cov["step_budget_exceeded_runs"] = int(sumF(sums, "over_budget"))
 		cov["yield_sites_visited_max_shard"] = maxF(sums, "sites_hit")
 		cov["yield_sites_total"] = maxF(sums, "sites_total")
+		funcReach(cov, sums)
 		cov["faults_fired"] = map[string]int64{"pool_put_dropped": int64(sumF(sums, "pool_drops")), "pool_get_forced_miss": int64(sumF(sums, "pool_misses")), "pool_get_reordered": int64(sumF(sums, "pool_reorders")),
 			"forced_preemption_at_site": int64(sumF(sums, "forced_fired")), "pool_gets": int64(sumF(sums, "pool_gets")), "pool_puts": int64(sumF(sums, "pool_puts")), "pool_news": int64(sumF(sums, "pool_news"))}
 	case "history":
@@ -879,6 +881,62 @@ func writeEvidence(prop, tier string, seed uint64, sums []map[string]any, start 
 	b, _ := json.MarshalIndent(ev, "", " ")
 	if err := os.WriteFile(filepath.Join(verifDir, "evidence", prop+".json"), b, 0o644); err != nil {
 		fatal("writing evidence: %v", err)
+	}
+}
+
+// siteFuncs is the list of instrumented library functions ("file:Func") of the
+// scratch copy this run was built from (filled by check()).
+var siteFuncs []string
+
+// funcReach reports which library functions the simulated runs entered while the
+// scheduler was active: a function nobody entered is code no schedule was explored in.
+func funcReach(cov map[string]any, sums []map[string]any) {
+	runs := mergeCounts(sums, "func_runs")
+	if len(siteFuncs) == 0 {
+		return
+	}
+	var never, rare []string
+	entered := 0
+	for _, f := range siteFuncs {
+		if strings.Contains(f, "verif_hooks.go") {
+			continue
+		}
+		n := runs[f]
+		switch {
+		case n == 0:
+			never = append(never, f)
+		case n < 5:
+			rare = append(rare, fmt.Sprintf("%s (%d)", f, n))
+			entered++
+		default:
+			entered++
+		}
+	}
+	sort.Strings(never)
+	sort.Strings(rare)
+	cov["library_functions_instrumented"] = entered + len(never)
+	cov["library_functions_entered_under_the_scheduler"] = entered
+	cov["library_functions_never_entered"] = never
+	cov["library_functions_entered_in_fewer_than_5_runs"] = rare
+}
+
+func loadSiteFuncs(dir string) {
+	b, err := os.ReadFile(filepath.Join(dir, "sites.json"))
+	if err != nil {
+		return
+	}
+	var ss []struct {
+		File string `json:"file"`
+		Func string `json:"func"`
+		Kind string `json:"kind"`
+	}
+	if json.Unmarshal(b, &ss) != nil {
+		return
+	}
+	for _, s := range ss {
+		if s.Kind == "func" {
+			siteFuncs = append(siteFuncs, s.File+":"+s.Func)
+		}
 	}
 }
 
